@@ -14,6 +14,10 @@ import (
 
 var buildName = "asm" // overwritten by -ldflags for the noasmtest build
 
+// -only <case id>: run just that case of the suite and attach the case and its observations to the report
+var onlyID string
+var onlyCase json.RawMessage
+
 func VerifLevel() int { return verifArchLevel() }
 
 type ctx struct {
@@ -49,6 +53,20 @@ func parallelJ(n int, desc func(i int) interface{}, f func(i int)) {
 				jf = fmt.Sprintf("%s/w%d.json", jdir, k)
 			}
 			for i := range ch {
+				if onlyID != "" {
+					if desc == nil {
+						continue
+					}
+					b, _ := json.Marshal(desc(i))
+					var idOnly struct {
+						ID string `json:"id"`
+					}
+					json.Unmarshal(b, &idOnly)
+					if idOnly.ID != onlyID {
+						continue
+					}
+					onlyCase = b
+				}
 				if jf != "" {
 					b, _ := json.Marshal(desc(i))
 					os.WriteFile(jf, b, 0o644)
@@ -73,6 +91,7 @@ func main() {
 	driver := flag.String("driver", "", "path of the extracted-model driver")
 	ndrv := flag.Int("drivers", 3, "driver processes")
 	replay := flag.String("replay", "", "replay file (violation json)")
+	flag.StringVar(&onlyID, "only", "", "run only the case with this id")
 	flag.Parse()
 
 	if *prop == "dump" {
@@ -125,6 +144,9 @@ func main() {
 		c.rep.SpecReqs = pool.Reqs
 	}
 	c.rep.WallS = time.Since(start).Seconds()
+	if onlyID != "" {
+		c.rep.OnlyCase = onlyCase
+	}
 	if *out != "" {
 		if err := c.rep.Write(*out); err != nil {
 			fmt.Fprintln(os.Stderr, err)
